@@ -99,8 +99,11 @@ def mech (s : JSrc) (d : Dest) : Outcome :=
 
 /-- Does the per-class method enter the container it builds into the identity cache (`ctx.putTyped`, or `ctx.put` on
     the AssignableTo path) — so that the same object reached again through a destination of the same type is the same
-    Go value?  As coded: every method does, except setObject.exportToMap (builtin_set.go:94). -/
-def cachesTyped (k : SrcKind) (d : Dest) : Bool :=
+    Go value?  As coded since 6fa4053: every method does. -/
+def cachesTyped (_k : SrcKind) (_d : Dest) : Bool := true
+
+/-- the code BEFORE 6fa4053 (regression model): every method did, except setObject.exportToMap. -/
+def cachesTypedOld (k : SrcKind) (d : Dest) : Bool :=
   !(k == .set && d == .map)
 
 /-! ### the documentation (ExportTo doc comment), clause by clause -/
